@@ -416,8 +416,13 @@ def _split_update(st):
     pairs = []
     if len(c.args) == 1 and not c.keywords and isinstance(c.args[0], ast.Dict) and all(isinstance(k, ast.Constant) and isinstance(k.value, str) for k in c.args[0].keys):
         pairs = [(k.value, v) for k, v in zip(c.args[0].keys, c.args[0].values)]
-    elif not c.args and c.keywords and all(k.arg for k in c.keywords):
-        pairs = [(k.arg, k.value) for k in c.keywords]
+    elif not c.args and c.keywords and all(k.arg or (isinstance(k.value, ast.Dict) and all(isinstance(x, ast.Constant) and isinstance(x.value, str) for x in k.value.keys)) for k in c.keywords):
+        # keywords and **{literal} unpackings, in call order (a later duplicate key would be a TypeError at run time, so no overwrite order to model)
+        for k in c.keywords:
+            if k.arg:
+                pairs.append((k.arg, k.value))
+            else:
+                pairs += [(kk.value, vv) for kk, vv in zip(k.value.keys, k.value.values)]
     else:
         return None
     out = []
